@@ -93,6 +93,9 @@ def do_step(chk: Check) -> None:
         unp = [s_.targets[0] for s_ in tr.body if isinstance(s_, ast.Assign) and isinstance(s_.targets[0], ast.Tuple) and len(s_.targets[0].elts) == 2
                and isinstance(s_.value, ast.Call) and norm(s_.value.func) == 'self._stepper.step']
         ok = len(unp) == 1 and bound == {norm(unp[0].elts[0]): 'True', norm(unp[0].elts[1]): f'{h.name}.exit_code'}
+        # ... or the handler hands the exit code back at once (finished, so the value IS the result; the decision table above covers the rest of _do_step)
+        direct = [s_ for s_ in h.body if isinstance(s_, ast.Return)]
+        ok = ok or (len(unp) == 1 and not bound and len(direct) == 1 and direct[0] is h.body[-1] and norm(direct[0].value) == f'{h.name}.exit_code')
         ok = ok and any(norm(c.func) == 'self._stepper.step' for s in tr.body for c in ast.walk(s) if isinstance(c, ast.Call))
     chk.ob('DOM-return-propagation', ds, ok, 'return_ raised anywhere below is caught here and means (finished, exit code)', kind='caught-in-do-step')
     pr = prog.cls('workchains._PropagateReturn')
@@ -100,7 +103,7 @@ def do_step(chk: Check) -> None:
            'no "except Exception" between the return instruction and _do_step can swallow it', kind='base-exception')
     st = prog.cls('workchains.Stepper')
     for c in [st] + prog.subclasses(st):
-        for f in c.vmethods.values():
+        for f in c.emethods.values():
             for tr in [t for t in ast.walk(f.node) if isinstance(t, ast.Try)]:
                 for h in tr.handlers:
                     bad = h.type is None or norm(h.type).split('.')[-1] in ('BaseException', '_PropagateReturn')
